@@ -77,6 +77,10 @@ def check(ctx):
     others = [f.qual for f in repo.all_functions() if f.qual != aexit.qual and any(
         isinstance(n, ast.Call) and call_name(n) == "cancel_key_tasks" and n.args and repo.try_fold(n.args[0]) == key for n in ast.walk(f.node))]
     ctx.ob("R1", "driver::not-cancelled-elsewhere", not others, f"the driver's tasks are also cancelled in {others} (e.g. by reset): reconnection would stop", pump.loc)
+    # no OTHER domain's cancel can hit the driver task (registry interpreted, vlib/taskmodel.py)
+    from ..taskmodel import check_registry
+    if isinstance(key, str):
+        check_registry(ctx, repo, "R1", pump_key=key, only=("isolation",))
     awaited = []
     if heads:
         body = g.loop_body(heads[0])
